@@ -432,6 +432,11 @@ func RemUsedAsIndex(b *ssa.BinOp) bool {
 					return true
 				}
 			case *ssa.Phi:
+				// `r := a % n; if r < 0 { r += n }`: the merge of r (when it was found non-negative) and r + n (when
+				// it was found negative, so r + n > 0) is a valid index whatever the sign of the dividend
+				if v == ssa.Value(b) && signCorrected(x, b) {
+					continue
+				}
 				if walk(x) {
 					return true
 				}
@@ -899,4 +904,40 @@ func edgeExcludesZero(phi *ssa.Phi, i int) bool {
 		taken = pred.Succs[0]
 	}
 	return taken != phi.Block()
+}
+
+// signCorrected: phi merges the remainder rem with rem + divisor, the latter coming from the true side and the former
+// from the false side of `rem < 0`.
+func signCorrected(phi *ssa.Phi, rem *ssa.BinOp) bool {
+	if len(phi.Edges) != 2 {
+		return false
+	}
+	for i, e := range phi.Edges {
+		other := phi.Edges[1-i]
+		add, ok := other.(*ssa.BinOp)
+		if e != ssa.Value(rem) || !ok || add.Op != token.ADD {
+			continue
+		}
+		if !((add.X == ssa.Value(rem) && add.Y == rem.Y) || (add.Y == ssa.Value(rem) && add.X == rem.Y)) {
+			continue
+		}
+		// the block of the addition is entered by `rem < 0` true
+		ab := add.Block()
+		if len(ab.Preds) != 1 {
+			continue
+		}
+		pred := ab.Preds[0]
+		ifi, ok := pred.Instrs[len(pred.Instrs)-1].(*ssa.If)
+		if !ok || pred.Succs[0] != ab {
+			continue
+		}
+		cmp, ok := ifi.Cond.(*ssa.BinOp)
+		if !ok || cmp.Op != token.LSS || cmp.X != ssa.Value(rem) {
+			continue
+		}
+		if k, ok := ConstInt(cmp.Y); ok && k == 0 {
+			return true
+		}
+	}
+	return false
 }
